@@ -47,7 +47,19 @@ var solvers = []solverSpec{
 
 func hasLambdaOrQuant(s string) bool { return strings.Contains(s, "(forall ") || strings.Contains(s, "(exists ") }
 
-var procSem = make(chan struct{}, maxInt(2, runtime.NumCPU()))
+var procSem = make(chan struct{}, maxInt(2, runtime.NumCPU()-4))
+
+// qfSem: the quantifier-free variants have their own slots, so that a cheap conclusive answer is never
+// queued behind the slow quantified runs of other paths and obligations (with 80 paths x 5 processes the
+// 0.2 s winners waited 20 s for a core)
+var qfSem = make(chan struct{}, maxInt(2, runtime.NumCPU()/2))
+
+func minInt(a, b int) int {
+	if a < b {
+		return a
+	}
+	return b
+}
 
 func maxInt(a, b int) int {
 	if a > b {
@@ -70,9 +82,13 @@ func runOne(ctx context.Context, sp solverSpec, dir, base, script string, timeou
 	argv := sp.argv(f, timeoutS)
 	// one solver process per core: the time limits are wall-clock, and an oversubscribed machine (12
 	// obligations x 4 paths x 3 solvers) turned 2 s queries into timeouts
+	sem := procSem
+	if strings.HasSuffix(sp.name, "+qf") {
+		sem = qfSem
+	}
 	select {
-	case procSem <- struct{}{}:
-		defer func() { <-procSem }()
+	case sem <- struct{}{}:
+		defer func() { <-sem }()
 	case <-ctx.Done():
 		return "cancelled", ""
 	}
@@ -321,7 +337,7 @@ func Discharge(obls []*Oblig, dir string, timeoutS int, par int, unanimous bool)
 			}
 			results := make([]pres, len(o.disj))
 			var pwg sync.WaitGroup
-			psem := make(chan struct{}, 4)
+			psem := make(chan struct{}, 8)
 			var failed int32
 			for k, dj := range o.disj {
 				pwg.Add(1)
@@ -338,7 +354,24 @@ func Discharge(obls []*Oblig, dir string, timeoutS int, par int, unanimous bool)
 					if qfDisj[i] != nil {
 						qfs = Script([]*Term{qfDisj[i][k]}, true, "")
 					}
-					st, sv, md, ms := solveRace(dir, fmt.Sprintf("%s_p%d", base, k), sc, timeoutS, unanimous, qfs)
+					// paths are many and mostly easy: the quantifier-free variant first, alone (one process per
+					// path instead of five); the full race only when that is not conclusive
+					var st, sv, md string
+					var ms int64
+					if qfs != "" && !unanimous {
+						t0 := time.Now()
+						sp := solvers[0]
+						sp.name += "+qf"
+						qst, _ := runOne(context.Background(), sp, dir, fmt.Sprintf("%s_p%d_qf", base, k), qfs, minInt(8, timeoutS))
+						if qst == "unsat" {
+							st, sv, ms = "unsat", sp.name, time.Since(t0).Milliseconds()
+						}
+					}
+					if st == "" {
+						var ms2 int64
+						st, sv, md, ms2 = solveRace(dir, fmt.Sprintf("%s_p%d", base, k), sc, timeoutS, unanimous, qfs)
+						ms += ms2
+					}
 					results[k] = pres{st, sv, md, ms}
 					if st != "unsat" {
 						atomic.StoreInt32(&failed, 1)
